@@ -160,11 +160,13 @@ class RedfieldRelaxationTensor(RelaxationTensor):
             Km = self.Km
             Ld = self.Ld
             
-            Kd = numpy.zeros(Km.shape, dtype=numpy.float64)
+            # Hermitian conjugates of the operators; the plain transposition
+            # is the conjugate only as long as the operators are real
+            Kd = numpy.zeros(Km.shape, dtype=Km.dtype)
             Nm = Km.shape[0]
             ven = numpy.zeros(oper.data.shape, dtype=numpy.complex128)
             for mm in range(Nm):
-                Kd[mm, :, :] = numpy.transpose(Km[mm, :, :])
+                Kd[mm, :, :] = numpy.conj(numpy.transpose(Km[mm, :, :]))
             
                 ven += (
                 numpy.dot(Km[mm,:,:],numpy.dot(rho1, Ld[mm,:,:]))
@@ -501,7 +503,8 @@ class RedfieldRelaxationTensor(RelaxationTensor):
         #tt1 = time.time()
         for m in block_distributed_range(0,Nb): #range(Nb):
             
-            Kd = numpy.transpose(Km[m,:,:])
+            # Hermitian conjugate (transposition only for real operators)
+            Kd = numpy.conj(numpy.transpose(Km[m,:,:]))
 #            KdLm = numpy.dot(Kd,Lm[m,:,:])
 #            LdKm = numpy.dot(Ld[m,:,:],Km[m,:,:])
 #            for a in range(Na):
